@@ -11,7 +11,7 @@ import (
 )
 
 func main() {
-	mode := flag.String("mode", "raw", "raw | composite | compfail | slowsub | http | cluster | storm")
+	mode := flag.String("mode", "raw", "raw | composite | compfail | slowsub | slowlive | http | cluster | storm")
 	n := flag.Int("n", 10, "number of cases")
 	seed := flag.Uint64("seed", 1, "PRNG seed")
 	shard := flag.Int("shard", 0, "shard index (mixed into the seed and the case ids)")
@@ -40,6 +40,12 @@ func main() {
 			compositeFailCase(w, rng, id)
 		case "slowsub":
 			slowSubCase(w, rng, id)
+		case "slowlive":
+			if i%2 == 0 {
+				slowLiveRaw(w, rng, id)
+			} else {
+				slowLiveComposite(w, rng, id)
+			}
 		case "http":
 			httpCase(w, rng, id)
 		case "cluster":
